@@ -181,3 +181,19 @@ func (p *Path) xfScaled(x XF, N int) *smt.Term {
 	p.assumeOrStop(smt.Implies(smt.Eq(smt.IMul(two, diff), pow2(s)), smt.Eq(smt.IMod(d, two), smt.ConstIntU(0))))
 	return d
 }
+
+// xfToFloat32 rounds x to the nearest float32 (24-bit significand, ties to
+// even); the result is again k*2^e with k a multiple of 2^29. Values here are
+// far from float32's exponent limits (1 <= x < 2^65).
+func (p *Path) xfToFloat32(x XF) XF {
+	if x.exact != nil {
+		p.abortf("Int back end: float32 rounding of an integer-valued double is not lowered")
+	}
+	k32 := p.fresh("f32.k", smt.IntS, "int")
+	p.assumeOrStop(smt.And(smt.ILe(pow2(23), k32), smt.ILe(k32, pow2(24))))
+	two := smt.ConstIntU(2)
+	diff := iabs(smt.ISub(smt.IMul(pow2(29), k32), x.k))
+	p.assumeOrStop(smt.ILe(smt.IMul(two, diff), pow2(29)))
+	p.assumeOrStop(smt.Implies(smt.Eq(smt.IMul(two, diff), pow2(29)), smt.Eq(smt.IMod(k32, two), smt.ConstIntU(0))))
+	return XF{k: smt.IMul(pow2(29), k32), e: x.e}
+}
